@@ -64,7 +64,16 @@ class MultiAgentProblemsConverter:
             combined_problem.goal_state_predicates = list(
                 set(combined_problem.goal_state_predicates)
             )
-            combined_problem.goal_state_fluents.update(agent_problem.goal_state_fluents)
+            combined_goal_fluents = {
+                goal_fluent.to_pddl()
+                for goal_fluent in combined_problem.goal_state_fluents
+            }
+            for goal_fluent in agent_problem.goal_state_fluents:
+                if goal_fluent.to_pddl() in combined_goal_fluents:
+                    continue
+
+                combined_problem.goal_state_fluents.add(goal_fluent)
+                combined_goal_fluents.add(goal_fluent.to_pddl())
 
         return combined_problem
 
